@@ -1,63 +1,11 @@
-import IgVerif.Model.ModuleOrder
+import IgVerif.Lemmas.Deps
 /-! Invariants of the library ordering loop: no library twice; every dependency
 that was not explicitly broken is emitted before its dependent. -/
 namespace IgVerif.MO
 
-theorem get_set_self (d : Deps) (k : String) (v : List String) : (d.set k v).get k = v := by
-  induction d with
-  | nil => simp [Deps.set, Deps.get]
-  | cons p rest ih =>
-    unfold Deps.set
-    split
-    · simp [Deps.get]
-    · split
-      · simp [Deps.get]
-      · rename_i h1 _
-        simp only [Deps.get, h1, Bool.false_eq_true, if_false]
-        exact ih
-
-theorem get_set_ne (d : Deps) (k k' : String) (v : List String) (h : k' ≠ k) :
-    (d.set k v).get k' = d.get k' := by
-  induction d with
-  | nil =>
-    have : (k == k') = false := by simp; exact fun e => h e.symm
-    simp [Deps.set, Deps.get, this]
-  | cons p rest ih =>
-    have hk : (k == k') = false := by simp; exact fun e => h e.symm
-    unfold Deps.set
-    split
-    · rename_i h1
-      have e : p.1 = k := by simpa using h1
-      have : (p.1 == k') = false := by rw [e]; exact hk
-      simp [Deps.get, hk, this]
-    · split
-      · simp [Deps.get, hk]
-      · simp only [Deps.get]
-        split
-        · rfl
-        · exact ih
-
-theorem get_of_not_has (d : Deps) (k : String) (h : d.has k = false) : d.get k = [] := by
-  induction d with
-  | nil => rfl
-  | cons p rest ih =>
-    simp only [Deps.has, List.any_cons, Bool.or_eq_false_iff] at h
-    simp only [Deps.get, h.1, Bool.false_eq_true, if_false]
-    exact ih (by simpa [Deps.has] using h.2)
-
-theorem get_touch (d : Deps) (k k' : String) : (d.touch k).get k' = d.get k' := by
-  unfold Deps.touch
-  split
-  · rfl
-  · rename_i h
-    have h' : d.has k = false := by simpa using h
-    by_cases e : k' = k
-    · subst e; rw [get_set_self, get_of_not_has d k' h']
-    · exact get_set_ne d k k' [] e
-
-theorem findCycle_get (fuel : Nat) (d : Deps) (path rest : List String) (k : String) :
-    (findCycle fuel d path rest).1.get k = d.get k := by
-  induction fuel generalizing d path rest with
+theorem findCycle_get (fuel : Nat) (d : Deps) (vis path rest : List String) (k : String) :
+    (findCycle fuel d vis path rest).1.get k = d.get k := by
+  induction fuel generalizing d vis path rest with
   | zero => simp [findCycle]
   | succ fuel ih =>
     cases rest with
@@ -66,18 +14,20 @@ theorem findCycle_get (fuel : Nat) (d : Deps) (path rest : List String) (k : Str
       unfold findCycle
       split
       · rfl
-      · simp only
-        split
-        · rename_i d' c heq
-          have := ih (d.touch x) (path ++ [x]) ((d.touch x).get x)
-          rw [heq] at this
-          simp only at this
-          rw [this, get_touch]
-        · rename_i d' heq
-          have h1 := ih (d.touch x) (path ++ [x]) ((d.touch x).get x)
-          rw [heq] at h1
-          simp only at h1
-          rw [ih d' path rest, h1, get_touch]
+      · split
+        · exact ih d vis path rest
+        · simp only
+          split
+          · rename_i d' vis' c heq
+            have := ih (d.touch x) (x :: vis) (path ++ [x]) ((d.touch x).get x)
+            rw [heq] at this
+            simp only at this
+            rw [this, get_touch]
+          · rename_i d' vis' heq
+            have h1 := ih (d.touch x) (x :: vis) (path ++ [x]) ((d.touch x).get x)
+            rw [heq] at h1
+            simp only at h1
+            rw [ih d' vis' path rest, h1, get_touch]
 
 /-- `b` is emitted strictly before `a` -/
 def Before (libs : List String) (b a : String) : Prop :=
@@ -175,10 +125,10 @@ theorem inv_breakOne (orig : Deps) (fuel : Nat) (libs : List String) (pre : List
   simp only
   split
   · exact h
-  · have hget : ∀ k, (findCycle fuel (d.touch name) [name] ((d.touch name).get name)).1.get k = d.get k := by
+  · have hget : ∀ k, (findCycle fuel (d.touch name) [] [name] ((d.touch name).get name)).1.get k = d.get k := by
       intro k; rw [findCycle_get, get_touch]
-    generalize hfc : findCycle fuel (d.touch name) [name] ((d.touch name).get name) = res at hget
-    obtain ⟨d', o⟩ := res
+    generalize hfc : findCycle fuel (d.touch name) [] [name] ((d.touch name).get name) = res at hget
+    obtain ⟨d', vis', o⟩ := res
     have hd' : ∀ k, d'.get k = d.get k := hget
     have keep : Inv orig d' libs (pre ++ broken) :=
       ⟨h.nodup, h.respected, fun x hx y hy => by rw [hd']; exact h.pending x hx y hy⟩
